@@ -16,10 +16,18 @@ contract(f"{M}:tsn_minus_one", params={"a": "int"}, returns="int",
 contract(f"{M}:decode_params", params={"body": "bytes"}, returns="list[tuple[int,bytes]]",
          raises={"ValueError": None},
          ensures=["forall(lambda j: 0 <= result[j][0] < 65536 and len(result[j][1]) <= len(body), 0, len(result))",
-                  "4 * len(result) <= len(body)"],
+                  "4 * len(result) <= len(body)",
+                  # the first parameter is decoded exactly, and a body that holds a header holds a parameter (also the
+                  # smallest one: four bytes, empty value)
+                  "implies(len(body) < 4, len(result) == 0)",
+                  "implies(len(body) >= 4, len(result) >= 1 and result[0][0] == u16(body, 0) and "
+                  "result[0][1] == body[4:u16(body, 2)])"],
          locals={"params": "list[tuple[int,bytes]]"},
          loops={0: dict(kind="while",
                         invariant=["0 <= pos", "4 * len(params) <= pos", "4 * len(params) <= len(body)",
+                                   "implies(pos == 0, len(params) == 0)",
+                                   "implies(pos > 0, len(params) >= 1 and params[0][0] == u16(body, 0) and "
+                                   "params[0][1] == body[4:u16(body, 2)])",
                                    "forall(lambda j: 0 <= params[j][0] < 65536 and len(params[j][1]) <= len(body), 0, len(params))"],
                         decreases="len(body) - pos")},
          tags=T58, witness=[{"body": bytes.fromhex("c0000004" "80080006" "c082" "0000")}])
